@@ -225,7 +225,9 @@ fn write_gnu_build_id_note(
     let name_out = rest.split_off_mut(..GNU_NOTE_NAME.len()).unwrap();
     name_out.copy_from_slice(GNU_NOTE_NAME);
 
-    rest.copy_from_slice(build_id);
+    let (desc_out, padding) = rest.split_at_mut(build_id.len());
+    desc_out.copy_from_slice(build_id);
+    padding.fill(0);
 
     Ok(())
 }
